@@ -569,9 +569,14 @@ def yankPop (S : Segmenter) (U : UData) (yankSize : Nat) (text : Text) : LM (Opt
   let e := lb.pos
   if yankSize > e then panic   -- `end - yank_size` underflow (dev build)
   let start := e - yankSize
+  if yankSize > lb.len then panic   -- `self.buf.len() - yank_size` underflow (dev build; unreachable: pos ≤ len)
+  -- the replacement does not fit: refuse before anything is removed (fix D44)
+  if lb.mustTruncate (lb.len - yankSize + blen text) then return none
   let _ ← drain start e .forward
   setPos (lb.pos - yankSize)
-  yank S U text 1
+  -- `Some(self.yank(text, 1, cl).unwrap_or(false))`: an empty replacement still changed the line
+  let r ← yank S U text 1
+  return some (r.getD false)
 
 /-- `move_backward` -/
 def moveBackward (S : Segmenter) (U : UData) (n : Nat) : LM Bool := do
